@@ -59,11 +59,14 @@ impl TestCase {
     /// outcome in regards to exit code and (STDOUT) output, or return an
     /// [`TestCaseError`]
     pub fn validate(&self, output: &Output) -> Result<()> {
-        if let ExitStatus::Code(exit_code) = output.exit_code {
-            let expected = self.exit_code.unwrap_or(0);
-            if exit_code != expected {
+        let expected = self.exit_code.unwrap_or(0);
+        match output.exit_code {
+            ExitStatus::Code(exit_code) if exit_code == expected => {}
+            // an execution that ended without an exit code (signal, abort, never
+            // started) cannot have ended in the expected one
+            ref status => {
                 return Err(TestCaseError::InvalidExitCode {
-                    actual: exit_code,
+                    actual: status.as_code(),
                     expected,
                 });
             }
